@@ -123,9 +123,15 @@ func ownCap(g *Gen, around int) int {
 	return around + g.R.Intn(around+2)
 }
 
+// bit 0 EscapeHTML, bit 1 ValidateString (the correction pass runs when the value has ill-formed UTF-8)
 func ownOpts(g *Gen) string {
-	if g.R.Intn(7) == 0 {
+	switch g.R.Intn(14) {
+	case 0, 1:
 		return "1"
+	case 2, 3:
+		return "2"
+	case 4:
+		return "3"
 	}
 	return "0"
 }
@@ -160,6 +166,29 @@ func init() {
 				bad := ownHasBadTok(v)
 				k := g.R.Intn(100)
 				call := ""
+				// two live encoder buffers in one goroutine, the stream encoder, and verbatim repeats of earlier calls
+				switch x := g.R.Intn(100); {
+				case x < 7:
+					call = "J|" + strconv.Itoa(g.R.Intn(4)) + "|" + []string{"0", "0", "0", "1", "2"}[g.R.Intn(5)] + "|" + v
+				case x < 10:
+					call = "K|" + strconv.Itoa(g.R.Intn(3)) + "|0|" + v
+				case x < 13:
+					call = "D|" + ownOpts(g) + "|" + v
+				case x < 16:
+					call = "Z|" + []string{"0", "0", "1", "2", "3"}[g.R.Intn(5)] + "|" + v
+				case x < 20 && len(fields) > 5:
+					call = fields[4+g.R.Intn(len(fields)-4)]
+					if strings.HasPrefix(call, "E|") || strings.HasPrefix(call, "X|") {
+						call = ""
+					}
+				case x < 24:
+					// an output with ill-formed UTF-8 under ValidateString: the correction pass swaps two pooled buffers
+					call = "M|" + []string{"2", "3"}[g.R.Intn(2)] + "|x" + strconv.Itoa(1+g.R.Intn(sz/2+2)) + ",fffe61;"
+				}
+				if call != "" {
+					fields = append(fields, call)
+					continue
+				}
 				switch {
 				case k < 24:
 					call = "M|" + ownOpts(g) + "|" + v
